@@ -19,6 +19,9 @@ C05  Selection objectives mean what they say in every decision encoding
   R7-loopdata   a value stored into out[i] inside `for i in range(n)` depends on i
 """
 import ast
+
+from sa.ctorflow import wire
+
 from fractions import Fraction
 
 from sa.astutil import dump, where, kwargs_of, walk_no_nested, field_of, is_guard
@@ -994,3 +997,4 @@ def run(prog, rep, tier):
     check_decision_purity(prog, rep)
     check_weight_sizes(prog, rep)
     check_subset_frequencies(prog, rep, tier)
+    wire(prog, rep, "C05", 60, 330)
